@@ -597,7 +597,7 @@ def replay(path):
 # --------------------------------------------------------------------------- common flows
 
 def graph_flow(v, module, cfg, exe, tag, depth=3, budget=20000, walks=50, walklen=200, workers=None,
-               nontrivial=None, env=None, heap='8g'):
+               nontrivial=None, env=None, heap='8g', prefix=None):
     """E0 + E1 for a transducer-like model: TLC checks the model's invariants/properties exhaustively and
     emits its transition relation; every emitted edge is then taken at least once in the real library, all
     paths up to `depth` (at most `budget`) are executed, plus seeded random walks."""
@@ -606,21 +606,25 @@ def graph_flow(v, module, cfg, exe, tag, depth=3, budget=20000, walks=50, walkle
     rnd = random.Random(seed())
     counts = {}
 
+    def pre(w):
+        # harness-level set-up lines (no expectation) in front of a script, e.g. an address base the model abstracts from
+        return (prefix(rnd) + w) if prefix else w
+
     def gen():
         n = 0
         for w in g.covering_walks():
             n += 1
-            yield w
+            yield pre(w)
         counts['cover'] = n
         n = 0
         for w in g.all_paths(depth, budget):
             n += 1
-            yield w
+            yield pre(w)
         counts['paths'] = n
         n = 0
         for w in g.random_walks(walks, walklen, rnd):
             n += 1
-            yield w
+            yield pre(w)
         counts['walks'] = n
 
     res = run_scripts(exe, gen(), v.pid, name=tag)
